@@ -1,6 +1,6 @@
 """C03 - check, mate and draw status; incrementally maintained state never goes stale
 (DESIGN.md section 5, C03)."""
-from boardchecks import board_pipeline, sys_model_check
+from boardchecks import board_pipeline, sys_model_check, games_and_validate
 from vlib import root_indices
 
 LEVEL = "model_checking"
@@ -43,4 +43,5 @@ def run(ctx):
             ctx.cov["distinct_nontrivial"] += r["summary"]["nontrivial"]
     ctx.cov["evaluations"] += npos
     ctx.cov["steps"].append({"step": "moved-vs-rebuilt sweep", "positions": npos})
+    games_and_validate(ctx, 4 if ctx.tier == "quick" else 14, 3000 if ctx.tier == "quick" else 20000)
     sys_model_check(ctx, hot, 1 if ctx.tier == "quick" else 2)
